@@ -9,6 +9,9 @@ CHECKS = {
  'C05': ('other', 'PyVC: VCs from the real AST + loop invariants, z3/cvc5 (P); symbolic execution on enumerated tree shapes (S, bounded); run-time contracts (R, bounded)',
          'forge_nat/forge_int/unforge_int/get_tag/read_tag/forge_array/unforge_array proved for all integers and all byte strings against the Zarith/Micheline grammar spec; forge_micheline/unforge_micheline only on bounded tree shapes (symbolic leaves) and bounded native trees; claimed as other because the recursive parser is not proved unbounded',
          'trusted: PyVC encoding of the Python subset, z3/cvc5, specs/zarith.py + specs/micheline_bin.py; assumed inverse pairs hex/fromhex, encode/decode, str/int; prim table read live', '5/C05'),
+ 'C09': ('proof', 'PyVC: per-row linear-integer VCs over the live table + symbolic execution of the real encode/decode/validate ASTs over ghost base58 numbers, z3',
+         'for every row and ALL payloads the encoded string has the documented prefix and length; table unambiguity; base58_encode/base58_decode/_validate/is_* decided on the real code with the base58 package replaced by its contract; payload lengths are fixed per row so per-row symbolic execution is complete',
+         'assumed: base58.b58encode_check/b58decode_check implement specs/b58.py (exercised at run time every run); sha256 checksum uninterpreted; PyVC encoding; z3', '5/C09'),
  'C28': ('exploration', 'run-time contract with ghost request counter over all outcome sequences (bounded)',
          'all success/error outcome sequences up to length 6 (8 thorough) for 1..4 nodes on the real RpcMultiNode with stubbed inner nodes',
          'inner RpcNode.request stubbed; bounded history length', '5/C28'),
